@@ -348,3 +348,149 @@ def min_init(ctx, P, scope, rule="MIN-INIT", tus=None):
                                    % (field, cls[0], cls[1], bcls[0], bcls[1]))
                         k += 1
     return n
+
+
+def const_index_guard(ctx, P, scope, rule="CONST-INDEX", tus=None):
+    from sa.expr import const_int
+    ctx.rule(rule, "where a function rejects some values of `obj->F_length` with an error exit and afterwards reads `obj->F[c]` at a "
+                   "constant index c, the rejecting condition is true for every length 0 .. c (evaluated exactly over the "
+                   "comparison / && / || structure of the condition): `mutations_length > 1` lets a site without mutations "
+                   "through to `mutations[0]`")
+
+    def ev(node, lenname, L):
+        node = strip(node)
+        if node is None:
+            return None
+        c = const_int(node)
+        if c is not None:
+            return c
+        if node.k == "MemberExpr" and estr(node) == lenname:
+            return L
+        if node.k == "UnaryOperator" and node.op == "!":
+            v = ev(node.kids[0], lenname, L)
+            return None if v is None else int(not v)
+        if node.k == "BinaryOperator":
+            a, b = ev(node.kids[0], lenname, L), ev(node.kids[1], lenname, L)
+            op = node.op
+            if op == "||":
+                if a == 1 or b == 1 or a is True or b is True:
+                    return 1
+                return None if (a is None or b is None) else int(bool(a) or bool(b))
+            if op == "&&":
+                if a == 0 or b == 0:
+                    return 0
+                return None if (a is None or b is None) else int(bool(a) and bool(b))
+            if a is None or b is None:
+                return None
+            return {"==": a == b, "!=": a != b, "<": a < b, "<=": a <= b, ">": a > b, ">=": a >= b}.get(op) if op in ("==", "!=", "<", "<=", ">", ">=") else None
+        return None
+    n = 0
+    for key in (tus or LIB_TUS):
+        tu = P.tus[key]
+        for fn in tu.funcs.values():
+            if fn.body is None or not scope(key, fn.name):
+                continue
+            k = 0
+            done = set()
+            for x in walk(fn.body):
+                if x.k != "ArraySubscriptExpr":
+                    continue
+                c = const_int(x.kids[1])
+                b = strip(x.kids[0])
+                if c is None or b is None or b.k != "MemberExpr":
+                    continue
+                lenname = "%s%s%s_length" % (estr(b.kids[0]), "->" if b.arrow else ".", b.name)
+                if (lenname, c) in done:
+                    continue
+                guards = []
+                for g in walk(fn.body):
+                    if g.k == "IfStmt" and g.e <= x.b and len(g.kids) > 1 and g.kids[1] is not None and lenname in estr(g.kids[0]):
+                        s = tu.src(g.kids[1])
+                        if ("TSK_ERR_" in s or "tsk_trace_error" in s) and any(y.k in ("GotoStmt", "ReturnStmt") for y in walk(g.kids[1])):
+                            guards.append(g)
+                if not guards:
+                    continue
+                done.add((lenname, c))
+                n += 1
+                bad = [L for L in range(0, c + 1) if not any(ev(g.kids[0], lenname, L) == 1 for g in guards)]
+                ctx.ob(rule, "%s|%s[%d]" % (fn.name, estr(b), c), not bad, tu.loc(x),
+                       "lengths 0..%d are rejected before %s[%d] is read" % (c, estr(b), c) if not bad else
+                       "%s == %s passes the check(s) %s and %s[%d] is then read" % (lenname, bad[0], [estr(g.kids[0]) for g in guards], estr(b), c))
+                k += 1
+    return n
+
+
+def ownership_handoff(ctx, P, scope, rule="OWNERSHIP-HANDOFF", tus=None):
+    from sa.cfg import CFG
+    ctx.rule(rule, "a local pointer that the function frees during cleanup and also hands over to the caller (`*dest = p`, "
+                   "`obj->f = p`) is set to NULL after the hand-over on every path that can still reach the free: otherwise the "
+                   "buffer now owned by the table is freed here and again by its owner")
+    n = 0
+    for key in (tus or LIB_TUS):
+        tu = P.tus[key]
+        for fn in tu.funcs.values():
+            if fn.body is None or not scope(key, fn.name):
+                continue
+            frees = {}
+            for c in walk(fn.body):
+                if c.k == "CallExpr" and callee(c) in ("tsk_safe_free", "__tsk_safe_free", "free", "tsk_free") and len(c.kids) > 1:
+                    a = strip(c.kids[1])
+                    while a is not None and a.k in ("UnaryOperator", "CStyleCastExpr") and a.kids:
+                        a = strip(a.kids[-1])
+                    if a is not None and a.k == "DeclRefExpr" and a.refkind in (None, "VarDecl") and a.ref:
+                        frees.setdefault(a.ref, []).append(c)
+            if not frees:
+                continue
+            hand = []
+            for x in walk(fn.body):
+                if x.k == "BinaryOperator" and x.op == "=":
+                    r = strip(x.kids[1])
+                    while r is not None and r.k == "CStyleCastExpr" and r.kids:
+                        r = strip(r.kids[-1])
+                    l = strip(x.kids[0])
+                    if r is not None and r.k == "DeclRefExpr" and r.ref in frees and l is not None and l.k in ("UnaryOperator", "MemberExpr", "ArraySubscriptExpr"):
+                        # the destination must belong to the caller: its root is a parameter reached through a pointer
+                        root, through_ptr = l, False
+                        while root is not None and root.k in ("UnaryOperator", "MemberExpr", "ArraySubscriptExpr", "ParenExpr", "ImplicitCastExpr"):
+                            if (root.k == "UnaryOperator" and root.op == "*") or (root.k == "MemberExpr" and root.arrow) or root.k == "ArraySubscriptExpr":
+                                through_ptr = True
+                            root = strip(root.kids[0]) if root.kids else None
+                        params = {p_.name for p_ in fn.params}
+                        if root is not None and root.k == "DeclRefExpr" and through_ptr and (root.ref in params or "*" in (root.ty or "")):
+                            hand.append((r.ref, x))
+            if not hand:
+                continue
+            cfg = CFG(fn)
+
+            def node_of(c):
+                for nd in cfg.nodes:
+                    if nd.ast is not None and nd.kind in ("stmt", "cond") and any(y is c for y in walk(nd.ast)):
+                        return nd
+                return None
+            for k, (name, x) in enumerate(hand):
+                hn = node_of(x)
+                fnodes = {node_of(c) for c in frees[name]} - {None}
+                nulls = {nd for nd in cfg.nodes if nd.kind == "stmt" and nd.ast is not None and nd.ast.k == "BinaryOperator" and nd.ast.op == "="
+                         and estr(nd.ast.kids[0]) == name and estr(nd.ast.kids[1]) in ("NULL", "((void *)0)", "0")}
+                # a re-assignment from an allocation also ends the obligation
+                nulls |= {nd for nd in cfg.nodes if nd.kind == "stmt" and nd.ast is not None and nd.ast.k == "BinaryOperator" and nd.ast.op == "="
+                          and estr(nd.ast.kids[0]) == name and nd is not hn}
+                if hn is None or not fnodes:
+                    continue
+                n += 1
+                wit = None
+                for s_, _lab in hn.succ:
+                    if s_ in nulls:
+                        continue
+                    if s_ in fnodes:
+                        wit = [hn, s_]
+                        break
+                    p = cfg.find_path(s_, fnodes, avoid=nulls)
+                    if p:
+                        wit = [hn] + p
+                        break
+                ctx.ob(rule, "%s|%s@%d" % (fn.name, name, k), wit is None, tu.loc(x),
+                       "`%s` is NULLed after `%s` before any free can see it" % (name, estr(x)[:60]) if wit is None else
+                       "after `%s` a path reaches the free of `%s` (lines %s) without `%s = NULL`: double free" %
+                       (estr(x)[:60], name, " -> ".join(tu.loc(p_.ast).split(":")[-1] for p_ in wit if p_.ast is not None)[:60], name))
+    return n
